@@ -63,7 +63,7 @@ def gen_ops(rng, cfg, nops, kmax=5, pmax=3, failing=0.0):
         teams, regime = gen.gen_teams(rng, cfg["beta"], kmax=kmax, pmax=pmax,
                                       regime=rng.choice(["typical", "wide", "mismatch", "equal_size", "huge_sigma", "identical"]))
         if failing and rng.random() < failing:
-            if cfg.get("gamma") == "boom" and rng.random() < 0.5:
+            if str(cfg.get("gamma")).startswith("boom") and rng.random() < 0.5:
                 i = rng.randrange(len(teams))
                 teams[i] = [[teams[i][0][0] + 0.01 * j * cfg["beta"], teams[i][0][1], f"b{j}"] for j in range(5)]
                 lv = gen.weak_order(rng, len(teams))
@@ -115,7 +115,7 @@ def generate(ctx):
         if ctx.rng.random() < 0.3:
             failing = 0.25
             if ctx.rng.random() < 0.6:
-                cfg["gamma"] = "boom"
+                cfg["gamma"] = ctx.rng.choice(["boom", "boom_type", "boom_type", "boom_key", "boom_value", "boom_attr"])
         ops = gen_ops(ctx.rng, cfg, ctx.rng.randint(5, 50 if ctx.tier == "thorough" else 25), failing=failing)
         if ctx.rng.random() < 0.1:
             cfg["_modelsub"] = True  # the long-lived model is an instance of an application-side subclass
@@ -125,7 +125,7 @@ def generate(ctx):
         cfg = league.league_cfg(ctx.rng, gen)
         cfg["tau"] = cfg["beta"] * ctx.rng.choice([0.02, 0.3, 1.0])
         if ctx.rng.random() < 0.25:
-            cfg["gamma"] = "boom"  # the application's callback fails for some games (teams of five), in the middle of rate
+            cfg["gamma"] = ctx.rng.choice(["boom", "boom_type", "boom_key", "boom_value", "boom_attr"])  # the application's callback fails for some games (teams of five), in the middle of rate
         yield "fb", dict(model=m, cfg=cfg, players=ctx.rng.randint(6, 14), steps=ctx.rng.randint(10, 40 if ctx.tier == "quick" else 120),
                          seed=ctx.rng.randrange(2 ** 31), app_types=ctx.rng.random() < 0.25)
     for _ in range(ctx.budget(40, 2400)):
@@ -230,9 +230,7 @@ def run_failing(model, op, Ms):
     """a call that is expected to fail: returns (Obs, expected exception classes)"""
     teams = _mk_teams(model, op)
     if op["op"] == "boom":
-        from ..util import CallbackFailure
-
-        return observe(model, "rate", teams, **_kw(op)), (CallbackFailure,)
+        return observe(model, "rate", teams, **_kw(op)), (Exception,)
     how, target = op["how"], op["target"]
     kw = dict(op.get("call") or {}) if target == "rate" else {}
     n = len(teams)
@@ -493,7 +491,7 @@ def probe_fb(ctx, payload):
         teams = [[pool[i] for i in t] for t in tidx]
         vals = [[[p.mu, p.sigma, p.name] for p in t] for t in teams]
         r = rng.random()
-        if cfg.get("gamma") == "boom" and rng.random() < 0.12:
+        if str(cfg.get("gamma")).startswith("boom") and rng.random() < 0.12:
             # a FAILING step on the persistent objects: a malformed call, or a rate call whose callback raises half-way
             # (a team of five).  Whatever state the objects are left in is what the next steps start from (their values
             # are re-read), and those steps must return the history-free results for these values.
